@@ -248,6 +248,11 @@ def oracle(case, r):
         try:
             doc = json.loads(em["json"]["out"])
             blocks = doc[0]["mismatches"] if doc else []
+            if doc and not ml:
+                # "a report is empty exactly when the two texts have the same lines"
+                bad.append(("json_nonempty", "the two texts have the same lines (no chunk) but the json report is not empty: %r" % (em["json"]["out"][:200],)))
+            if ml and not doc:
+                bad.append(("json_empty", "the texts differ in %d chunks but the json report is empty" % len(ml)))
             if len(blocks) != len(ml):
                 bad.append(("json_blocks", "json has %d blocks, report has %d chunks" % (len(blocks), len(ml))))
             for blk, (lo, rem, lines) in zip(blocks, ml):
